@@ -164,6 +164,8 @@ pub struct World {
     pub model: dm::Dec,
     /// before-injections per (function slot, original instruction index)
     pub inj: BTreeMap<(u32, usize), Vec<String>>,
+    /// after-injections (also lowered block-entry code) per (function slot, original instruction index)
+    pub inj_after: BTreeMap<(u32, usize), Vec<String>>,
     pub declared: BTreeSet<u32>,
     /// functions named by `ref.func` in added or injected code
     pub needs_declared: BTreeSet<u32>,
@@ -208,6 +210,7 @@ impl World {
             imports: vec![],
             model: din.clone(),
             inj: BTreeMap::new(),
+            inj_after: BTreeMap::new(),
             declared: BTreeSet::new(),
             needs_declared: BTreeSet::new(),
             name_dontcare: BTreeSet::new(),
@@ -266,7 +269,7 @@ impl World {
         if self.needs_declared.is_empty() {
             return false;
         }
-        let mut probe = World { f: vec![], g: vec![], m: vec![], imports: vec![], model: self.model.clone(), inj: BTreeMap::new(), declared: BTreeSet::new(), needs_declared: BTreeSet::new(), name_dontcare: BTreeSet::new(), imports_changed: false, counter: 0, log: vec![], types: vec![], type_dbg: vec![] };
+        let mut probe = World { f: vec![], g: vec![], m: vec![], imports: vec![], model: self.model.clone(), inj: BTreeMap::new(), inj_after: BTreeMap::new(), declared: BTreeSet::new(), needs_declared: BTreeSet::new(), name_dontcare: BTreeSet::new(), imports_changed: false, counter: 0, log: vec![], types: vec![], type_dbg: vec![] };
         if let Some(g) = del_global {
             probe.model.deleted_g.insert(g);
         }
@@ -371,7 +374,7 @@ impl World {
                 scan(op);
             }
         }
-        for ((fi, _), ops) in &self.inj {
+        for ((fi, _), ops) in self.inj.iter().chain(self.inj_after.iter()) {
             if self.model.deleted_f.contains(fi) {
                 continue;
             }
@@ -388,18 +391,24 @@ impl World {
     /// the expected module: model with injections spliced in
     pub fn materialise(&self) -> dm::Dec {
         let mut d = self.model.clone();
-        let mut per: BTreeMap<u32, BTreeMap<usize, &Vec<String>>> = BTreeMap::new();
+        let mut per: BTreeMap<u32, (BTreeMap<usize, &Vec<String>>, BTreeMap<usize, &Vec<String>>)> = BTreeMap::new();
         for ((fi, ii), ops) in &self.inj {
-            per.entry(*fi).or_default().insert(*ii, ops);
+            per.entry(*fi).or_default().0.insert(*ii, ops);
         }
-        for (fi, m) in per {
+        for ((fi, ii), ops) in &self.inj_after {
+            per.entry(*fi).or_default().1.insert(*ii, ops);
+        }
+        for (fi, (before, after)) in per {
             let old = std::mem::take(&mut d.funcs[fi as usize].ops);
             let mut new = Vec::with_capacity(old.len() + 8);
             for (i, op) in old.into_iter().enumerate() {
-                if let Some(ops) = m.get(&i) {
+                if let Some(ops) = before.get(&i) {
                     new.extend(ops.iter().cloned());
                 }
                 new.push(op);
+                if let Some(ops) = after.get(&i) {
+                    new.extend(ops.iter().cloned());
+                }
             }
             d.funcs[fi as usize].ops = new;
         }
@@ -1194,6 +1203,7 @@ impl EditDriver {
                 d.ops.clear();
                 d.locals.clear();
                 w.inj.retain(|(fi, _), _| *fi != id);
+                w.inj_after.retain(|(fi, _), _| *fi != id);
                 // names of the locals of a removed body are not expected to survive
                 w.model.names.locals.retain(|(f, _), _| *f != id);
                 w.model.names.labels.retain(|(f, _), _| *f != id);
@@ -1305,17 +1315,37 @@ impl EditDriver {
                 if ops.is_empty() {
                     return Ok(());
                 }
-                let via_iter = c.t.bool();
+                // where and how: before / after an instruction, at function entry, or as a
+                // block-entry probe on a construct (the special modes are lowered at encode; the
+                // IDs in their code must be re-indexed like everything else)
+                let opener_sites: Vec<usize> = (lo..nops).filter(|i| matches!(w.model.funcs[fid as usize].ops.get(*i).map(|o| dm::op_name(o)), Some("Block" | "Loop" | "If")) && !w.inj_after.contains_key(&(fid, *i))).collect();
+                let mut how = *c.t.pick(&["before", "before", "after", "func_entry", "block_entry"]);
+                if how == "block_entry" && opener_sites.is_empty() {
+                    how = "before";
+                }
+                if how == "after" && (at + 1 >= nops || matches!(w.model.funcs[fid as usize].ops.get(at).map(|o| dm::op_name(o)), Some("Block" | "Loop" | "If"))) {
+                    how = "before";
+                }
+                let at = match how {
+                    "block_entry" => *c.t.pick(&opener_sites),
+                    "func_entry" => 0,
+                    _ => at,
+                };
+                let via_iter = how != "func_entry" && c.t.bool();
                 let ops2 = ops.clone();
-                w.log.push(format!("inject before func {} instr {} via {}: {:?}", fid, at, if via_iter { "ModuleIterator" } else { "FunctionModifier" }, dbg_ops(&ops)));
+                w.log.push(format!("inject {} func {} instr {} via {}: {:?}", how, fid, at, if via_iter { "ModuleIterator" } else { "FunctionModifier" }, dbg_ops(&ops)));
                 run_lib(|| {
+                    use wirm::iterator::iterator_trait::{IteratingInstrumenter, Iterator};
                     if via_iter {
-                        use wirm::iterator::iterator_trait::{IteratingInstrumenter, Iterator};
                         let mut it = wirm::iterator::module_iterator::ModuleIterator::new(module, &vec![]);
                         loop {
                             if let (Location::Module { func_idx, instr_idx }, _) = it.curr_loc() {
                                 if *func_idx == fid && instr_idx == at {
-                                    it.before();
+                                    match how {
+                                        "after" => it.after(),
+                                        "block_entry" => it.block_entry(),
+                                        _ => it.before(),
+                                    };
                                     for o in ops2 {
                                         it.inject(o);
                                     }
@@ -1327,15 +1357,34 @@ impl EditDriver {
                             }
                         }
                     } else {
+                        let loc = Location::Module { func_idx: FunctionID(fid), instr_idx: at };
                         let mut fm = module.functions.get_fn_modifier(FunctionID(fid)).expect("local function");
-                        fm.before_at(Location::Module { func_idx: FunctionID(fid), instr_idx: at });
+                        match how {
+                            "after" => {
+                                fm.after_at(loc);
+                            }
+                            "block_entry" => {
+                                fm.block_entry_at(loc);
+                            }
+                            "func_entry" => {
+                                fm.func_entry();
+                            }
+                            _ => {
+                                fm.before_at(loc);
+                            }
+                        };
                         for o in ops2 {
                             fm.inject(o);
                         }
+                        fm.finish_instr();
                     }
                 })
                 .map_err(|p| lib_reject("inject", &p))?;
-                w.inj.entry((fid, at)).or_default().extend(dbg_ops(&ops));
+                match how {
+                    "after" | "block_entry" => w.inj_after.entry((fid, at)).or_default().extend(dbg_ops(&ops)),
+                    _ => w.inj.entry((fid, at)).or_default().extend(dbg_ops(&ops)),
+                }
+                c.class(&format!("inject:{}", how));
                 ap.kinds.push("inject");
             }
             "add_global" | "mod_global_init" if a.rich && (op == "add_global" || c.t.bool()) => {
